@@ -282,3 +282,48 @@ def heap_programs(tier, rng):
             if p[0] not in [q[0] for q in P]:
                 P.append(p)
     return P
+
+
+# ---- two-dimensional: stack-hungry, heap-light ---------------------------------------------------
+# peak sp well above the number of heap cells the run needs (with collections), so that heap sizes
+# BELOW the stack size still complete: the same cell is pushed many times.
+
+def shared_args(w):
+    params = ", ".join("a%d : int" % i for i in range(w))
+    args = ", ".join("x" for _ in range(w))
+    return ("shared_args_%d" % w,
+            "func s(%s) -> int { a0 + a%d }\nfunc main() -> int { let x = 21; print(s(%s)); 0 }\n" % (params, w - 1, args),
+            None, ["2d", "call"])
+
+
+def shared_lets(k):
+    body = "".join("    let a%d = x;\n" % i for i in range(k))
+    return ("shared_lets_%d" % k,
+            "func main() -> int\n{\n    let x = 21;\n%s    print(a0 + a%d);\n    0\n}\n" % (body, k - 1), None, ["2d", "locals"])
+
+
+def shared_record(w):
+    fields = "".join("    f%d : int;\n" % i for i in range(w))
+    args = ", ".join("x" for _ in range(w))
+    return ("shared_record_%d" % w,
+            "record R\n{\n%s}\nfunc main() -> int\n{\n    let x = 21;\n    let r = R(%s);\n    print(r.f0 + r.f%d);\n    0\n}\n"
+            % (fields, args, w - 1), None, ["2d", "record"])
+
+
+def shared_nested(k, w):
+    params = ", ".join("a%d : int" % i for i in range(w))
+    e = "x"
+    for _ in range(k):
+        e = "g(%s%s)" % ("x, " * (w - 1), e)
+    return ("shared_nested_%d_%d" % (k, w),
+            "func g(%s) -> int { a%d }\nfunc main() -> int { let x = 21; print(%s); 0 }\n" % (params, w - 1, e),
+            None, ["2d", "nested-calls"])
+
+
+def twod_programs(tier, rng):
+    thorough = tier != "quick"
+    P = [shared_args(150), shared_lets(200), shared_record(180), shared_nested(20, 6)]
+    if thorough:
+        P += [shared_args(600), shared_lets(900), shared_record(500), shared_nested(60, 8),
+              shared_args(rng.randint(120, 400)), shared_lets(rng.randint(150, 600))]
+    return P
